@@ -8,6 +8,7 @@ mod codec;
 mod codegen;
 mod fabric;
 mod simnet;
+mod teardown;
 mod layers;
 mod router;
 mod timeout;
@@ -27,6 +28,7 @@ fn main() {
         "codec" => codec::run(),
         "codegen" => codegen::run(),
         "simnet" => simnet::run(),
+        "teardown" => teardown::run(),
         "layers" => layers::run(),
         "router" => router::run(),
         "timeout" => timeout::run(),
